@@ -170,7 +170,7 @@ def run(rep):
                 def leaf(t, has=has, empty_params=empty_params):
                     if t == ov2:
                         return (not has,)
-                    if t[0] == 'mcall' and t[2] == 'is_empty' and t[1][0] == 'acc':
+                    if t[0] == 'mcall' and t[2] == 'is_empty' and (t[1][0] == 'acc' or (t[1][0] == 'star' and E.find_templates(t[1][3], lambda y: 'VertexStepMode' in E.tmpl_text(y)))):
                         return (empty_params,)
                     return None
                 try:
